@@ -487,7 +487,7 @@ class ConcEnv(BaseEnv):
         if fa.size == 0:
             self.log.append((name, 'ok', 'empty'))
             return True
-        if self.exact:
+        if self.exact or tol == 0:
             ba, bb = fa.view(np.uint64), fb.view(np.uint64)
             nan = np.isnan(fa) & np.isnan(fb)
             bad = (ba != bb) & ~nan
